@@ -577,12 +577,294 @@ fn const_val(kind: Q, local: bool) -> (&'static str, &'static str, &'static str)
     }
 }
 
+// ---- the name of a parameterless FUNCTION referenced from every scope -----------------------------
+
+/// Where a reference to the function name stands.
+#[derive(Clone, Copy, PartialEq, Eq, Hash, Debug, PartialOrd, Ord)]
+enum Scope {
+    /// module level
+    Global,
+    /// inside a SUB
+    Sub,
+    /// inside the body of ANOTHER FUNCTION
+    Func,
+}
+
+const SCOPES: [Scope; 3] = [Scope::Global, Scope::Sub, Scope::Func];
+
+impl Scope {
+    fn label(self) -> &'static str {
+        match self {
+            Scope::Global => "global",
+            Scope::Sub => "sub",
+            Scope::Func => "other-function",
+        }
+    }
+}
+
+/// The syntactic position of an (accepted) reference to the name of a parameterless FUNCTION.
+#[derive(Clone, Copy, PartialEq, Eq, Hash, Debug, PartialOrd, Ord)]
+enum RPos {
+    /// `PRINT "m="; G`
+    Print,
+    /// `W = G : PRINT "m="; W`
+    AssignRhs,
+    /// `PRINT "m="; G + 1` / `G + "!"`
+    Operand,
+    /// `IF G = value THEN PRINT "m=yes" ELSE PRINT "m=no"`
+    Cond,
+    /// `SELECT CASE G` / `CASE value` ...
+    SelectCase,
+    /// `FOR W% = 1 TO G` (numeric functions)
+    ForLimit,
+    /// `PRINT "m="; H(G)` — argument of a user FUNCTION
+    ArgUserFn,
+    /// `H((G))`
+    ArgUserFnParen,
+    /// `H(G + 1)` / `H(G + "!")`
+    ArgUserFnExpr,
+    /// `S n, G` — argument of a user SUB
+    ArgSub,
+    /// `CALL S(n, G)`
+    ArgCallSub,
+    /// `STR$(G)` (numeric) / `LEN(G)` (string) — argument of a built-in function
+    ArgBuiltIn,
+    /// `A%(G)` — array subscript (numeric functions)
+    Subscript,
+}
+
+const RPOSES: [RPos; 13] = [
+    RPos::Print,
+    RPos::ArgUserFn,
+    RPos::AssignRhs,
+    RPos::ArgSub,
+    RPos::Operand,
+    RPos::ArgBuiltIn,
+    RPos::Cond,
+    RPos::ArgUserFnParen,
+    RPos::SelectCase,
+    RPos::ArgCallSub,
+    RPos::ForLimit,
+    RPos::ArgUserFnExpr,
+    RPos::Subscript,
+];
+
+impl RPos {
+    fn label(self) -> &'static str {
+        match self {
+            RPos::Print => "print-item",
+            RPos::AssignRhs => "assignment-rhs",
+            RPos::Operand => "operand",
+            RPos::Cond => "if-condition",
+            RPos::SelectCase => "select-case",
+            RPos::ForLimit => "for-limit",
+            RPos::ArgUserFn => "user-function-arg",
+            RPos::ArgUserFnParen => "user-function-arg-parenthesized",
+            RPos::ArgUserFnExpr => "user-function-arg-in-expression",
+            RPos::ArgSub => "user-sub-arg",
+            RPos::ArgCallSub => "user-sub-arg-CALL",
+            RPos::ArgBuiltIn => "built-in-function-arg",
+            RPos::Subscript => "array-subscript",
+        }
+    }
+    /// The root-cause class of the position (part of the signature; the fine position is an evidence class).
+    fn group(self) -> &'static str {
+        match self {
+            RPos::Print | RPos::AssignRhs | RPos::Operand | RPos::Cond | RPos::SelectCase | RPos::ForLimit => "rvalue",
+            _ => "argument",
+        }
+    }
+    fn numeric_only(self) -> bool {
+        matches!(self, RPos::ForLimit | RPos::Subscript)
+    }
+}
+
+#[derive(Clone, Copy, PartialEq, Eq, Hash, Debug)]
+struct FnSite {
+    scope: Scope,
+    pos: RPos,
+    /// bare spelling (else the suffix of the function's type)
+    bare: bool,
+    cs: Cs,
+}
+
+/// A statement that uses the name of a FUNCTION as a variable / declares it again, outside that function's body.
+#[derive(Clone, Copy, PartialEq, Eq, Hash, Debug)]
+enum FnRej {
+    /// `G = value` (bare: true) / `G<q> = value`
+    Assign(bool),
+    /// `FOR G = 1 TO 2` (numeric functions)
+    ForCounter,
+    /// `READ G`
+    Read,
+    /// `INPUT G`
+    Input,
+    /// `DIM G` (bare: true) / `DIM G<q>`
+    DimCompact(bool),
+    /// `DIM G AS type`
+    DimExt(Ty),
+    /// `CONST G = value`
+    Const,
+}
+
+impl FnRej {
+    fn label(self) -> &'static str {
+        match self {
+            FnRej::Assign(true) => "assignment-bare",
+            FnRej::Assign(false) => "assignment-suffix",
+            FnRej::ForCounter => "for-counter",
+            FnRej::Read => "read-target",
+            FnRej::Input => "input-target",
+            FnRej::DimCompact(true) => "dim-compact-bare",
+            FnRej::DimCompact(false) => "dim-compact-suffix",
+            FnRej::DimExt(_) => "dim-extended",
+            FnRej::Const => "const",
+        }
+    }
+    fn group(self) -> &'static str {
+        match self {
+            FnRej::Assign(_) | FnRej::ForCounter | FnRej::Read | FnRej::Input => "used-as-variable",
+            _ => "declared-again",
+        }
+    }
+}
+
+/// `base` is a FUNCTION WITHOUT parameters: its name alone is a call, in every scope and every position.
+#[derive(Clone, PartialEq, Eq, Hash, Debug)]
+struct FnRefCase {
+    base: String,
+    decl_sp: Sp,
+    decl_cs: Cs,
+    /// the result is assigned through the bare name (else through the suffix of its type)
+    assign_bare: bool,
+    /// the "other FUNCTION" scope has a parameter of its own (else it is parameterless, too)
+    func_has_param: bool,
+    sites: Vec<FnSite>,
+    reject: Option<(Scope, FnRej, Cs)>,
+    rot: usize,
+}
+
+impl FnRefCase {
+    fn fq(&self, t: &DefTable) -> Q {
+        self.decl_sp.unwrap_or(t.q[letter_of(&self.base)])
+    }
+    fn undetermined(&self, t: &DefTable) -> Option<&'static str> {
+        let is_str = self.fq(t) == Q::Str;
+        if is_str && self.sites.iter().any(|s| s.pos.numeric_only()) {
+            return Some("numeric position for a string function");
+        }
+        if let Some((_, r, _)) = self.reject {
+            if is_str && r == FnRej::ForCounter {
+                return Some("numeric position for a string function");
+            }
+        }
+        if self.sites.is_empty() && self.reject.is_none() {
+            return Some("function name never referenced");
+        }
+        None
+    }
+}
+
+// ---- a local declaration against a DIM SHARED variable of the same base name -----------------------
+
+#[derive(Clone, Copy, PartialEq, Eq, Hash, Debug)]
+enum ClashG {
+    /// `DIM SHARED x<sp>`
+    Compact(Sp),
+    /// `DIM SHARED x AS type`
+    Ext(Ty),
+}
+
+#[derive(Clone, Copy, PartialEq, Eq, Hash, Debug)]
+enum ClashL {
+    /// `DIM x AS type` inside the subprogram
+    DimExt(Ty),
+    /// parameter `x AS type`
+    ParamExt(Ty),
+    /// `DIM x<q>` inside the subprogram
+    DimCompact(Q),
+    /// parameter `x<q>`
+    ParamCompact(Q),
+}
+
+/// The module level declares `base` with DIM SHARED (so it is in scope in every subprogram); a SUB/FUNCTION declares
+/// the same base name again as an extended name (or, against an extended shared variable, as a qualified compact name).
+#[derive(Clone, PartialEq, Eq, Hash, Debug)]
+struct ClashCase {
+    base: String,
+    g: ClashG,
+    g_array: bool,
+    l: ClashL,
+    l_array: bool,
+    func_scope: bool,
+    decl_cs: Cs,
+    l_cs: Cs,
+    /// an unrelated statement stands before the local DIM
+    filler: bool,
+}
+
+impl ClashCase {
+    /// Some(rule) when the README's rule for extended names decides that the local declaration must be rejected.
+    fn must_reject(&self) -> Option<&'static str> {
+        match (self.g, self.l) {
+            // "these names ... when in scope, you can't have any other qualified name of the same bare name":
+            // the shared variable is in scope, the new extended name cannot coexist with it
+            (_, ClashL::DimExt(_)) => Some("extended-local-over-shared"),
+            (_, ClashL::ParamExt(_)) => Some("extended-param-over-shared"),
+            // the shared EXTENDED name is in scope: no other qualified name of that bare name
+            (ClashG::Ext(_), ClashL::DimCompact(_)) => Some("compact-local-over-shared-extended"),
+            (ClashG::Ext(_), ClashL::ParamCompact(_)) => Some("compact-param-over-shared-extended"),
+            // compact against compact: separate variable or redefinition — not stated
+            _ => None,
+        }
+    }
+    fn undetermined(&self) -> Option<&'static str> {
+        if self.must_reject().is_none() {
+            return Some("a local compact declaration with the base name of a DIM SHARED compact variable");
+        }
+        if matches!(self.l, ClashL::ParamExt(Ty::Fix(_))) {
+            return Some("STRING * n parameter");
+        }
+        None
+    }
+    fn g_kind(&self) -> String {
+        format!(
+            "{}{}",
+            match self.g {
+                ClashG::Compact(None) => "compact-bare",
+                ClashG::Compact(Some(_)) => "compact-suffix",
+                ClashG::Ext(Ty::Udt) => "extended-udt",
+                ClashG::Ext(Ty::Fix(_)) => "extended-fixed-string",
+                ClashG::Ext(_) => "extended-builtin",
+            },
+            if self.g_array { "-array" } else { "" }
+        )
+    }
+    fn l_kind(&self) -> String {
+        format!(
+            "{}{}",
+            match self.l {
+                ClashL::DimExt(Ty::Udt) => "dim-extended-udt",
+                ClashL::DimExt(Ty::Fix(_)) => "dim-extended-fixed-string",
+                ClashL::DimExt(_) => "dim-extended-builtin",
+                ClashL::ParamExt(Ty::Udt) => "param-extended-udt",
+                ClashL::ParamExt(_) => "param-extended-builtin",
+                ClashL::DimCompact(_) => "dim-compact-suffix",
+                ClashL::ParamCompact(_) => "param-compact-suffix",
+            },
+            if self.l_array { "-array" } else { "" }
+        )
+    }
+}
+
 #[derive(Clone, PartialEq, Eq, Hash, Debug)]
 enum Unit {
     Name(Case),
     Func(FnCase),
     Arr(ArrCase),
     Const(ConstCase),
+    FnRef(FnRefCase),
+    Clash(ClashCase),
 }
 
 // ------------------------------------------------------------------------------------------------
@@ -1380,6 +1662,243 @@ fn render_const(c: &ConstCase, _t: &DefTable, idx: usize, up: bool) -> UnitOut {
     out
 }
 
+/// A parameterless FUNCTION whose name is referenced (bare / with the suffix of its type) at module level, inside a
+/// SUB and inside ANOTHER FUNCTION, in r-value and in argument positions: every reference is a call (prints the
+/// function's value); a statement that treats the name as a variable or declares it again must be rejected.
+fn render_fnref(f: &FnRefCase, t: &DefTable, idx: usize, up: bool) -> UnitOut {
+    let mut out = UnitOut::default();
+    let fq = f.fq(t);
+    let is_str = fq == Q::Str;
+    let sfx = fq.ch();
+    let id: u32 = 3 + ((idx + f.rot) % 6) as u32;
+    let lit = val_lit(id, is_str);
+    let shown = val_text(id, is_str);
+    let plus = if is_str { format!("{}!", shown) } else { (id + 1).to_string() };
+    let nm = |bare: bool, cs: Cs| -> String {
+        let mut s = styled(&f.base, cs, up);
+        if !bare {
+            s.push(sfx);
+        }
+        s
+    };
+    let hh = format!("Hh{}{}", idx, sfx);
+    let hs = format!("Hs{}", idx);
+    let wv = format!("Wv{}{}", idx, sfx);
+    let wa = format!("Wa{}%", idx);
+    let wc = format!("Wc{}%", idx);
+    let wi = format!("Wi{}%", idx);
+    let mut next_marker = 0u32;
+    let mut need_hh = false;
+    let mut need_hs = false;
+    let mut lines_of = |s: &FnSite, need_hh: &mut bool, need_hs: &mut bool| -> Vec<L> {
+        next_marker += 1;
+        let mnum = next_marker;
+        let marker = format!("k{}.{}", idx, mnum);
+        let tag = format!("function-name-{}-in-{}", s.pos.group(), s.scope.label());
+        let n = nm(s.bare, s.cs);
+        let pr = |text: String, expected: &str| -> L { L { text, tag: tag.clone(), kind: LK::Print { marker: marker.clone(), expected: expected.to_string() }, wrote: None } };
+        let op = if is_str { format!("{} + \"!\"", n) } else { format!("{} + 1", n) };
+        match s.pos {
+            RPos::Print => vec![print_l(marker.clone(), &n, &shown, &tag)],
+            RPos::AssignRhs => vec![stmt(format!("{} = {}", wv, n), &tag), print_l(marker.clone(), &wv, &shown, &tag)],
+            RPos::Operand => vec![print_l(marker.clone(), &op, &plus, &tag)],
+            RPos::Cond => vec![pr(format!("IF {} = {} THEN PRINT \"{}=yes\" ELSE PRINT \"{}=no\"", n, lit, marker, marker), "yes")],
+            RPos::SelectCase => vec![
+                stmt(format!("SELECT CASE {}", n), &tag),
+                stmt(format!("CASE {}", lit), &tag),
+                pr(format!("PRINT \"{}=yes\"", marker), "yes"),
+                stmt("CASE ELSE".to_string(), &tag),
+                stmt(format!("PRINT \"{}=no\"", marker), &tag),
+                stmt("END SELECT".to_string(), &tag),
+            ],
+            RPos::ForLimit => vec![
+                stmt(format!("{} = 0", wc), &tag),
+                stmt(format!("FOR {} = 1 TO {}", wi, n), &tag),
+                stmt(format!("{} = {} + 1", wc, wc), &tag),
+                stmt("NEXT".to_string(), &tag),
+                print_l(marker.clone(), &wc, &shown, &tag),
+            ],
+            RPos::ArgUserFn => {
+                *need_hh = true;
+                vec![print_l(marker.clone(), &format!("{}({})", hh, n), &shown, &tag)]
+            }
+            RPos::ArgUserFnParen => {
+                *need_hh = true;
+                vec![print_l(marker.clone(), &format!("{}(({}))", hh, n), &shown, &tag)]
+            }
+            RPos::ArgUserFnExpr => {
+                *need_hh = true;
+                vec![print_l(marker.clone(), &format!("{}({})", hh, op), &plus, &tag)]
+            }
+            RPos::ArgSub => {
+                *need_hs = true;
+                vec![pr(format!("{} {}, {}", hs, mnum, n), &shown)]
+            }
+            RPos::ArgCallSub => {
+                *need_hs = true;
+                vec![pr(format!("CALL {}({}, {})", hs, mnum, n), &shown)]
+            }
+            RPos::ArgBuiltIn => {
+                if is_str {
+                    vec![print_l(marker.clone(), &format!("LEN({})", n), &shown.len().to_string(), &tag)]
+                } else {
+                    vec![print_l(marker.clone(), &format!("STR$({})", n), &shown, &tag)]
+                }
+            }
+            RPos::Subscript => vec![stmt(format!("{}({}) = 77", wa, id), &tag), print_l(marker.clone(), &format!("{}({})", wa, n), "77", &tag)],
+        }
+    };
+    let mut body: BTreeMap<Scope, Vec<L>> = BTreeMap::new();
+    for sc in SCOPES {
+        if f.sites.iter().any(|s| s.scope == sc && s.pos == RPos::Subscript) {
+            body.entry(sc).or_default().push(stmt(format!("DIM {}(0 TO 9)", wa), "function-name-setup"));
+        }
+    }
+    for s in &f.sites {
+        if is_str && s.pos.numeric_only() {
+            continue;
+        }
+        let ls = lines_of(s, &mut need_hh, &mut need_hs);
+        body.entry(s.scope).or_default().extend(ls);
+    }
+    if let Some((sc, r, cs)) = f.reject {
+        let tag = format!("function-name-{}-accepted:{}", r.group(), sc.label());
+        let rej = |text: String| -> L { L { text, tag: tag.clone(), kind: LK::Reject, wrote: None } };
+        let b = body.entry(sc).or_default();
+        match r {
+            FnRej::Assign(bare) => b.push(rej(format!("{} = {}", nm(bare, cs), lit))),
+            FnRej::ForCounter => {
+                b.push(rej(format!("FOR {} = 1 TO 2", nm(true, cs))));
+                b.push(stmt("NEXT".to_string(), "function-name-setup"));
+            }
+            FnRej::Read => {
+                out.g1.push(stmt(format!("DATA {}", lit), "function-name-setup"));
+                b.push(rej(format!("READ {}", nm(true, cs))));
+            }
+            FnRej::Input => b.push(rej(format!("INPUT {}", nm(true, cs)))),
+            FnRej::DimCompact(bare) => b.push(rej(format!("DIM {}", nm(bare, cs)))),
+            FnRej::DimExt(ty) => {
+                out.udt |= ty == Ty::Udt;
+                b.push(rej(format!("DIM {} AS {}", nm(true, cs), ty.text())));
+            }
+            FnRej::Const => b.push(rej(format!("CONST {} = {}", nm(true, cs), lit))),
+        }
+    }
+    // ---- module level
+    if let Some(ls) = body.remove(&Scope::Global) {
+        out.g1.extend(ls);
+    }
+    // ---- the function itself
+    let mut decl = styled(&f.base, f.decl_cs, up);
+    if let Some(q) = f.decl_sp {
+        decl.push(q.ch());
+    }
+    out.sub.push(stmt(format!("FUNCTION {}", decl), "decl-parameterless-function"));
+    out.sub.push(stmt(format!("{} = {}", nm(f.assign_bare, CASES[(f.rot + 1) % 4]), lit), "function-result-of-parameterless-function"));
+    out.sub.push(stmt("END FUNCTION".to_string(), "subprogram-frame"));
+    if need_hh {
+        out.sub.push(stmt(format!("FUNCTION {} (Wq{})", hh, sfx), "function-name-setup"));
+        out.sub.push(stmt(format!("{} = Wq{}", hh, sfx), "function-name-setup"));
+        out.sub.push(stmt("END FUNCTION".to_string(), "subprogram-frame"));
+    }
+    if need_hs {
+        out.sub.push(stmt(format!("SUB {} (Wm%, Wq{})", hs, sfx), "function-name-setup"));
+        out.sub.push(stmt(format!("PRINT \"k{}.\" + LTRIM$(STR$(Wm%)) + \"=\"; Wq{}", idx, sfx), "function-name-setup"));
+        out.sub.push(stmt("END SUB".to_string(), "subprogram-frame"));
+    }
+    if let Some(ls) = body.remove(&Scope::Sub) {
+        out.g1.push(stmt(format!("Sr{}", idx), "call"));
+        out.sub.push(stmt(format!("SUB Sr{}", idx), "decl-subprogram-header"));
+        out.sub.extend(ls);
+        out.sub.push(stmt("END SUB".to_string(), "subprogram-frame"));
+    }
+    if let Some(ls) = body.remove(&Scope::Func) {
+        if f.func_has_param {
+            out.g1.push(stmt(format!("Wret% = Fr{}%(0)", idx), "call"));
+            out.sub.push(stmt(format!("FUNCTION Fr{}% (Wp%)", idx), "decl-subprogram-header"));
+        } else {
+            out.g1.push(stmt(format!("Wret% = Fr{}%", idx), "call"));
+            out.sub.push(stmt(format!("FUNCTION Fr{}%", idx), "decl-subprogram-header"));
+        }
+        out.sub.extend(ls);
+        out.sub.push(stmt(format!("Fr{}% = 1", idx), "subprogram-frame"));
+        out.sub.push(stmt("END FUNCTION".to_string(), "subprogram-frame"));
+    }
+    out
+}
+
+/// `DIM SHARED x...` at module level and a declaration of the same base name inside a SUB/FUNCTION that the README's
+/// rule for extended names forbids (the shared variable is in scope there).
+fn render_clash(c: &ClashCase, t: &DefTable, idx: usize, up: bool) -> UnitOut {
+    let mut out = UnitOut::default();
+    let nm = |sp: Sp, cs: Cs| -> String {
+        let mut s = styled(&c.base, cs, up);
+        if let Some(q) = sp {
+            s.push(q.ch());
+        }
+        s
+    };
+    // ---- module level: the shared variable and one accepted use of it
+    let (g_name, g_ty): (String, Option<Ty>) = match c.g {
+        ClashG::Compact(sp) => (nm(sp, c.decl_cs), None),
+        ClashG::Ext(ty) => (nm(None, c.decl_cs), Some(ty)),
+    };
+    let g_dims = if c.g_array { "(1 TO 3)" } else { "" };
+    match g_ty {
+        None => out.g1.push(stmt(format!("DIM SHARED {}{}", g_name, g_dims), "decl-dim-shared-compact")),
+        Some(ty) => {
+            out.udt |= ty == Ty::Udt;
+            out.g1.push(stmt(format!("DIM SHARED {}{} AS {}", g_name, g_dims, ty.text()), "decl-dim-shared-extended"));
+        }
+    }
+    let g_is_str = match c.g {
+        ClashG::Compact(sp) => sp.unwrap_or(t.q[letter_of(&c.base)]) == Q::Str,
+        ClashG::Ext(ty) => ty.is_str(),
+    };
+    let target = format!("{}{}{}", g_name, if c.g_array { "(1)" } else { "" }, if g_ty == Some(Ty::Udt) { format!(".{}", UDT_FIELD) } else { String::new() });
+    out.g1.push(stmt(format!("{} = {}", target, val_lit(5, g_is_str)), "shared-variable-use"));
+    // ---- the subprogram with the clashing declaration
+    let rule = c.must_reject().unwrap_or("undetermined");
+    let site = if c.func_scope { "function" } else { "sub" };
+    let tag = format!("{}-accepted:{}", rule, site);
+    let sub_name = if c.func_scope { format!("Fc{}%", idx) } else { format!("Sc{}", idx) };
+    let kw = if c.func_scope { "FUNCTION" } else { "SUB" };
+    let param: Option<String> = match c.l {
+        ClashL::ParamExt(ty) => {
+            out.udt |= ty == Ty::Udt;
+            Some(format!("{}{} AS {}", nm(None, c.l_cs), if c.l_array { "()" } else { "" }, ty.text()))
+        }
+        ClashL::ParamCompact(q) => Some(format!("{}{}", nm(Some(q), c.l_cs), if c.l_array { "()" } else { "" })),
+        _ => None,
+    };
+    match param {
+        Some(p) => out.sub.push(L { text: format!("{} {} ({})", kw, sub_name, p), tag, kind: LK::Reject, wrote: None }),
+        None => {
+            out.sub.push(stmt(format!("{} {}", kw, sub_name), "decl-subprogram-header"));
+            if c.filler {
+                out.sub.push(stmt(format!("Wf{}% = 1", idx), "subprogram-frame"));
+            }
+            let l_dims = if c.l_array { "(1 TO 2)" } else { "" };
+            let text = match c.l {
+                ClashL::DimExt(ty) => {
+                    out.udt |= ty == Ty::Udt;
+                    format!("DIM {}{} AS {}", nm(None, c.l_cs), l_dims, ty.text())
+                }
+                ClashL::DimCompact(q) => format!("DIM {}{}", nm(Some(q), c.l_cs), l_dims),
+                _ => unreachable!(),
+            };
+            out.sub.push(L { text, tag, kind: LK::Reject, wrote: None });
+        }
+    }
+    if c.func_scope {
+        out.sub.push(stmt(format!("{} = 1", sub_name), "subprogram-frame"));
+        out.sub.push(stmt("END FUNCTION".to_string(), "subprogram-frame"));
+    } else {
+        out.sub.push(stmt("END SUB".to_string(), "subprogram-frame"));
+    }
+    out
+}
+
 // ------------------------------------------------------------------------------------------------
 // programs and their check
 // ------------------------------------------------------------------------------------------------
@@ -1420,6 +1939,8 @@ fn assemble(defs: &[DefStmt], t: &DefTable, units: &[Unit], up: bool) -> Prog {
             Unit::Func(f) => render_fn(f, t, i, up),
             Unit::Arr(a) => render_arr(a, t, i, up),
             Unit::Const(c) => render_const(c, t, i, up),
+            Unit::FnRef(f) => render_fnref(f, t, i, up),
+            Unit::Clash(c) => render_clash(c, t, i, up),
         })
         .collect();
     let mut src = String::new();
@@ -1667,6 +2188,8 @@ fn unit_letter(u: &Unit) -> usize {
         Unit::Func(f) => letter_of(&f.base),
         Unit::Arr(a) => letter_of(&a.base),
         Unit::Const(c) => letter_of(&c.base),
+        Unit::FnRef(f) => letter_of(&f.base),
+        Unit::Clash(c) => letter_of(&c.base),
     }
 }
 
@@ -1675,7 +2198,7 @@ fn unit_has_case_variation(u: &Unit) -> bool {
         Unit::Name(c) => c.decl_cs != Cs::Upper || c.g_refs.iter().chain(c.s_refs.iter()).any(|r| r.cs != Cs::Upper || r.cs2 != Cs::Upper) || c.reject.map(|r| r.cs != Cs::Upper).unwrap_or(false),
         Unit::Func(f) => f.decl_cs != Cs::Upper || f.calls.iter().chain(f.assigns.iter()).any(|(_, cs)| *cs != Cs::Upper),
         // letter cases rotate through every reference
-        Unit::Arr(_) | Unit::Const(_) => true,
+        Unit::Arr(_) | Unit::Const(_) | Unit::FnRef(_) | Unit::Clash(_) => true,
     }
 }
 
@@ -1713,6 +2236,8 @@ fn nontrivial_unit(u: &Unit, t: &DefTable) -> bool {
         Unit::Func(_) => true, // bare and qualified spelling of the function name
         Unit::Arr(_) => true, // a parameter is in play
         Unit::Const(_) => true, // a CONST is in play in subprogram scopes
+        Unit::FnRef(_) => true, // a function name is in play in several scopes
+        Unit::Clash(_) => true, // SHARED is in play in a subprogram scope
         Unit::Name(c) => {
             let mut sps: BTreeSet<Sp> = BTreeSet::new();
             for r in c.g_refs.iter().chain(c.s_refs.iter()) {
@@ -1739,6 +2264,8 @@ fn unit_class(u: &Unit) -> String {
             if c.g.sp.is_some() == c.l.sp.is_some() { "same" } else { "other" }
         ),
         Unit::Name(c) => format!("g:{}|s:{}{}", c.g.kind(), c.s.kind(), if c.s != SDecl::Absent && c.func_scope { "(function)" } else { "" }),
+        Unit::FnRef(f) => format!("parameterless-function-name:{}{}", sp_name(f.decl_sp), if f.reject.is_some() { "|must-reject" } else { "" }),
+        Unit::Clash(c) => format!("shared-clash:{}", c.must_reject().unwrap_or("undetermined")),
     }
 }
 
@@ -1778,6 +2305,29 @@ fn run_units(sh: &mut Shard, defs: &[DefStmt], t: &DefTable, units: &[Unit]) -> 
                     sh.class("array-param:with-scalar-of-other-type");
                 }
             }
+            Unit::FnRef(f) => {
+                let fq = f.fq(t);
+                sh.class(&format!("fnref:type={}", fq.type_kw()));
+                sh.class(if f.decl_sp.is_none() { "fnref:declared-bare" } else { "fnref:declared-with-suffix" });
+                for s in &f.sites {
+                    if fq == Q::Str && s.pos.numeric_only() {
+                        continue;
+                    }
+                    sh.class(&format!("fnref:{}:{}", s.scope.label(), s.pos.label()));
+                    sh.class(&format!("fnref:{}:{}", s.scope.label(), if s.bare { "bare-spelling" } else { "suffix-spelling" }));
+                }
+                if let Some((sc, r, _)) = f.reject {
+                    sh.class(&format!("fnref-reject:{}:{}", sc.label(), r.label()));
+                }
+                if f.sites.iter().any(|s| s.scope == Scope::Func) || matches!(f.reject, Some((Scope::Func, _, _))) {
+                    sh.class(if f.func_has_param { "fnref:other-function-has-parameter" } else { "fnref:other-function-parameterless" });
+                }
+            }
+            Unit::Clash(c) => {
+                sh.class(&format!("shared-clash:shared={}", c.g_kind()));
+                sh.class(&format!("shared-clash:local={}", c.l_kind()));
+                sh.class(if c.func_scope { "shared-clash:in-function" } else { "shared-clash:in-sub" });
+            }
             Unit::Const(c) => {
                 sh.class(&format!("const-shadow:global={}", c.g.label()));
                 sh.class(&format!("const-shadow:local={}", c.l.label()));
@@ -1805,6 +2355,9 @@ fn run_units(sh: &mut Shard, defs: &[DefStmt], t: &DefTable, units: &[Unit]) -> 
             Unit::Arr(a) if a.reject.is_some() => "example:array-parameter-must-reject-unit",
             Unit::Arr(_) => "example:array-parameter-unit",
             Unit::Const(_) => "example:const-shadow-unit",
+            Unit::FnRef(f) if f.reject.is_some() => "example:parameterless-function-name-must-reject-unit",
+            Unit::FnRef(_) => "example:parameterless-function-name-unit",
+            Unit::Clash(_) => "example:shared-clash-unit",
             _ => continue,
         };
         if !sh.stats.notes.contains_key(key) {
@@ -2120,6 +2673,149 @@ fn const_units(letter: u8, rot0: usize, part: Option<usize>) -> Vec<Unit> {
     v
 }
 
+/// Every (scope, position) site of a parameterless function's name; spellings and letter cases rotate with `rot`.
+fn fn_sites(rot: usize, is_str: bool) -> Vec<FnSite> {
+    let mut v = vec![];
+    let mut n = rot;
+    for scope in SCOPES {
+        for pos in RPOSES {
+            n += 1;
+            if is_str && pos.numeric_only() {
+                continue;
+            }
+            v.push(FnSite { scope, pos, bare: n % 2 == 0, cs: CASES[(n / 2) % 4] });
+        }
+    }
+    v
+}
+
+/// Parameterless functions declared through each spelling, referenced at every site.
+fn fnref_units(letter: u8, rot0: usize, t: &DefTable) -> Vec<Unit> {
+    let mut v = vec![];
+    for (i, decl_sp) in ALL_SP.iter().enumerate() {
+        let rot = rot0 + i;
+        let mut f = FnRefCase {
+            base: base_name(letter, 0),
+            decl_sp: *decl_sp,
+            decl_cs: CASES[rot % 4],
+            assign_bare: rot % 2 == 0,
+            func_has_param: (rot / 2) % 2 == 0,
+            sites: vec![],
+            reject: None,
+            rot,
+        };
+        f.sites = fn_sites(rot, f.fq(t) == Q::Str);
+        if f.undetermined(t).is_none() {
+            v.push(Unit::FnRef(f));
+        }
+    }
+    v
+}
+
+/// The name of a parameterless function used as a variable / declared again, in each scope outside its own body.
+fn fnref_reject_units(letter: u8, rot0: usize, t: &DefTable) -> Vec<Unit> {
+    let mut v = vec![];
+    let mut n = rot0;
+    for scope in SCOPES {
+        let kinds = [
+            FnRej::Assign(true),
+            FnRej::Assign(false),
+            FnRej::ForCounter,
+            FnRej::Read,
+            FnRej::Input,
+            FnRej::DimCompact(true),
+            FnRej::DimCompact(false),
+            FnRej::DimExt(EXT_TYPES[(rot0 + scope as usize) % 7]),
+            FnRej::Const,
+        ];
+        for r in kinds {
+            n += 1;
+            let mut f = FnRefCase {
+                base: base_name(letter, 0),
+                decl_sp: ALL_SP[n % 6],
+                decl_cs: CASES[n % 4],
+                assign_bare: (n / 2) % 2 == 0,
+                func_has_param: (n / 3) % 2 == 0,
+                // one accepted reference in the same scope, before the offending statement
+                sites: vec![FnSite { scope, pos: RPOSES[n % 4], bare: (n / 4) % 2 == 0, cs: CASES[(n + 1) % 4] }],
+                reject: Some((scope, r, CASES[(n + 2) % 4])),
+                rot: n,
+            };
+            if f.undetermined(t).is_some() {
+                // a string function: FOR needs a numeric counter — take the next spelling that is numeric
+                f.decl_sp = Some(Q::Lng);
+            }
+            if f.undetermined(t).is_none() {
+                v.push(Unit::FnRef(f));
+            }
+        }
+    }
+    v
+}
+
+fn clash_gs() -> Vec<ClashG> {
+    ALL_SP.iter().map(|sp| ClashG::Compact(*sp)).chain(EXT_TYPES.iter().map(|ty| ClashG::Ext(*ty))).collect()
+}
+
+/// Local declarations that cannot coexist with a DIM SHARED variable of the same base name.
+/// `full`: the whole product; else a rotating selection (every shared kind x {local DIM, parameter}).
+fn clash_units(letter: u8, rot0: usize, full: bool) -> Vec<Unit> {
+    let mut v = vec![];
+    let mut n = rot0;
+    let push = |v: &mut Vec<Unit>, n: usize, g: ClashG, g_array: bool, l: ClashL, l_array: bool| {
+        let c = ClashCase {
+            base: base_name(letter, 0),
+            g,
+            g_array,
+            l,
+            l_array,
+            func_scope: (n / 2) % 2 == 1,
+            decl_cs: CASES[n % 4],
+            l_cs: CASES[(n / 3 + 1) % 4],
+            filler: (n / 4) % 2 == 1,
+        };
+        if c.undetermined().is_none() {
+            v.push(Unit::Clash(c));
+        }
+    };
+    for g in clash_gs() {
+        if full {
+            for g_array in [false, true] {
+                for l_array in [false, true] {
+                    for ty in EXT_TYPES {
+                        n += 1;
+                        push(&mut v, n, g, g_array, ClashL::DimExt(ty), l_array);
+                    }
+                    for ty in PARAM_EXT_TYPES {
+                        n += 1;
+                        push(&mut v, n, g, g_array, ClashL::ParamExt(ty), l_array);
+                    }
+                    if matches!(g, ClashG::Ext(_)) {
+                        for q in QS {
+                            n += 1;
+                            push(&mut v, n, g, g_array, ClashL::DimCompact(q), l_array);
+                            n += 1;
+                            push(&mut v, n, g, g_array, ClashL::ParamCompact(q), l_array);
+                        }
+                    }
+                }
+            }
+        } else {
+            n += 1;
+            push(&mut v, n, g, n % 2 == 1, ClashL::DimExt(EXT_TYPES[n % 7]), (n / 2) % 3 == 1);
+            n += 1;
+            push(&mut v, n, g, (n / 2) % 2 == 1, ClashL::ParamExt(PARAM_EXT_TYPES[n % 6]), (n / 4) % 3 == 1);
+            if matches!(g, ClashG::Ext(_)) {
+                n += 1;
+                push(&mut v, n, g, n % 2 == 1, ClashL::DimCompact(QS[n % 5]), (n / 2) % 3 == 1);
+                n += 1;
+                push(&mut v, n, g, (n / 2) % 2 == 1, ClashL::ParamCompact(QS[n % 5]), (n / 4) % 3 == 1);
+            }
+        }
+    }
+    v
+}
+
 /// The few templates applied to names around the edges of a DEFtype range.
 fn core_units(letter: u8, k0: usize, rot: usize, t: &DefTable) -> Vec<Unit> {
     let tm: Vec<(GDecl, SDecl)> = vec![
@@ -2202,6 +2898,16 @@ fn rename(u: &Unit, k: usize) -> Unit {
             c.base = base_name(letter_of(&c.base) as u8, k);
             Unit::Const(c)
         }
+        Unit::FnRef(f) => {
+            let mut f = f.clone();
+            f.base = base_name(letter_of(&f.base) as u8, k);
+            Unit::FnRef(f)
+        }
+        Unit::Clash(c) => {
+            let mut c = c.clone();
+            c.base = base_name(letter_of(&c.base) as u8, k);
+            Unit::Clash(c)
+        }
     }
 }
 
@@ -2225,6 +2931,7 @@ fn all_templates(en: &mut Enumerator, sh: &mut Shard, defs: &[DefStmt], t: &DefT
     }
     units.extend(arr_units(letter, rot0, t));
     units.extend(const_units(letter, rot0, if defs.is_empty() { None } else { Some(rot0) }));
+    units.extend(fnref_units(letter, rot0, t));
     en.batched(sh, defs, t, units);
     for u in risky {
         en.program(sh, defs, t, &[rename(&u, 0)]);
@@ -2236,6 +2943,12 @@ fn all_templates(en: &mut Enumerator, sh: &mut Shard, defs: &[DefStmt], t: &DefT
             }
         }
         for u in arr_reject_units(letter, rot0, t) {
+            en.program(sh, defs, t, &[u]);
+        }
+        for u in fnref_reject_units(letter, rot0, t) {
+            en.program(sh, defs, t, &[u]);
+        }
+        for u in clash_units(letter, rot0, defs.is_empty()) {
             en.program(sh, defs, t, &[u]);
         }
     }
@@ -2320,6 +3033,8 @@ fn enumerate(sh: &mut Shard) -> bool {
     sh.exhaustive("26 letters x 5 DEFtype statements (single letter; `DEFINT A` / `defint a` alternating) x every single-name template: 35 global x 30 subprogram declaration kinds (minus the undetermined combinations) of the base name with all accepted spellings in both letter cases, 36 function-name templates, and 422 must-reject templates (foreign suffix on an extended variable by assignment / PRINT in global, shared-in-sub, local and parameter position; extended + compact DIM of one base name)");
     sh.exhaustive("array parameters, under no DEFtype (letters A H M S Z) and under each of the 26 x 5 single-letter DEFtype statements: 12 declaration styles (`A()` `A%()` `A&()` `A!()` `A#()` `A$()` compact; `A() AS INTEGER|LONG|SINGLE|DOUBLE|STRING|user TYPE` extended) x every fitting way of DIMming the caller's array (`DIM G%(1 TO 3)`, bare `DIM G(1 TO 3)` when the default type fits, `DIM G(1 TO 3) AS t`), in SUB and FUNCTION, caller's array with the parameter's name or another one, all six spellings resolved (denotes the parameter / rejected / undetermined), plus per configuration half of the 100 must-reject statements (6 extended element types x foreign suffixes x scalar/element x assignment/PRINT, alternating)");
     sh.exhaustive("constants: global CONST x CONST of the same bare name in one SUB/FUNCTION, 10 x 10 combinations of (declared bare | with suffix) x (INTEGER, LONG, SINGLE, DOUBLE, STRING literal) - all 100 under no DEFtype for 5 letters, every third one (rotating) under each of the 130 single-letter DEFtype statements; each referenced bare and suffixed, directly, in a later CONST expression and (INTEGER) as STRING * n length, at module level before / after the calls / after the subprogram definitions, in the redefining subprogram, and in a non-redefining subprogram textually before and after it");
+    sh.exhaustive("names of parameterless FUNCTIONs, under no DEFtype (letters A H M S Z) and under each of the 130 single-letter DEFtype statements: declared through each of the 6 spellings (bare: typed by the DEFtype table), the name referenced bare / with the suffix of its type (alternating, letter cases rotating) in 3 scopes (module level, SUB, another FUNCTION with or without a parameter of its own) x 13 positions (PRINT item, assignment right side, operand, IF condition, SELECT CASE, FOR limit, argument of a user FUNCTION plain / parenthesized / inside an expression, argument of a user SUB with and without CALL, argument of a built-in function, array subscript); plus per configuration (no DEFtype: letter A) 3 scopes x 9 must-reject statements (assignment bare / suffixed, FOR counter, READ, INPUT, DIM bare / suffixed, DIM AS type, CONST)");
+    sh.exhaustive("a declaration inside a SUB/FUNCTION against a DIM SHARED variable of the same base name: under no DEFtype (letter A) the whole product of 13 shared declarations (6 compact spellings, 7 extended types) x scalar/array x {local DIM AS 7 types, parameter AS 6 types; against an extended shared variable also DIM x<q> and parameter x<q> for the 5 suffixes} x scalar/array (956 programs, each must be rejected at the local declaration); under each of the 130 single-letter DEFtype statements a rotating selection of 40 of them (every shared kind x local DIM / parameter)");
     !en.stop
 }
 
@@ -2468,7 +3183,83 @@ fn random_program_case(sh: &mut Shard, tape: &[u32]) -> Result<(), Violation> {
             units.push(Unit::Func(f));
             continue;
         }
-        match t.choose(10) {
+        match t.choose(12) {
+            10 => {
+                // the name of a parameterless FUNCTION referenced from random scopes / positions
+                let decl_sp = rand_sp(&mut t);
+                let mut f = FnRefCase {
+                    base,
+                    decl_sp,
+                    decl_cs: CASES[t.choose(4)],
+                    assign_bare: t.chance(1, 2),
+                    func_has_param: t.chance(1, 2),
+                    sites: vec![],
+                    reject: None,
+                    rot: t.choose(24),
+                };
+                let is_str = f.fq(&table) == Q::Str;
+                for _ in 0..1 + t.choose(8) {
+                    let site = FnSite { scope: SCOPES[t.choose(3)], pos: RPOSES[t.choose(13)], bare: t.chance(1, 2), cs: CASES[t.choose(4)] };
+                    if is_str && site.pos.numeric_only() {
+                        sh.discard("numeric position for a string function");
+                        continue;
+                    }
+                    f.sites.push(site);
+                }
+                if with_reject && t.chance(1, 2) {
+                    let r = match t.choose(9) {
+                        0 => FnRej::Assign(true),
+                        1 => FnRej::Assign(false),
+                        2 => FnRej::DimCompact(true),
+                        3 => FnRej::DimCompact(false),
+                        4 => FnRej::DimExt(rand_ty(&mut t)),
+                        5 => FnRej::Const,
+                        6 => FnRej::Read,
+                        7 => FnRej::Input,
+                        _ => if is_str { FnRej::Assign(true) } else { FnRej::ForCounter },
+                    };
+                    with_reject = false;
+                    f.reject = Some((SCOPES[t.choose(3)], r, CASES[t.choose(4)]));
+                }
+                match f.undetermined(&table) {
+                    Some(why) => sh.discard(why),
+                    None => units.push(Unit::FnRef(f)),
+                }
+                continue;
+            }
+            11 => {
+                // a local declaration against a DIM SHARED variable: decided only when it must be rejected
+                let g = if t.chance(1, 2) { ClashG::Compact(rand_sp(&mut t)) } else { ClashG::Ext(rand_ty(&mut t)) };
+                let l = match t.choose(4) {
+                    0 => ClashL::DimExt(rand_ty(&mut t)),
+                    1 => ClashL::ParamExt(PARAM_EXT_TYPES[t.choose(6)]),
+                    2 => ClashL::DimCompact(QS[t.choose(5)]),
+                    _ => ClashL::ParamCompact(QS[t.choose(5)]),
+                };
+                let c = ClashCase {
+                    base,
+                    g,
+                    g_array: t.chance(1, 3),
+                    l,
+                    l_array: t.chance(1, 3),
+                    func_scope: t.chance(1, 2),
+                    decl_cs: CASES[t.choose(4)],
+                    l_cs: CASES[t.choose(4)],
+                    filler: t.chance(1, 2),
+                };
+                if !with_reject {
+                    sh.discard("a second must-reject unit in one program");
+                    continue;
+                }
+                match c.undetermined() {
+                    Some(why) => sh.discard(why),
+                    None => {
+                        with_reject = false;
+                        units.push(Unit::Clash(c));
+                    }
+                }
+                continue;
+            }
             8 => {
                 let p = if t.chance(1, 2) { APDecl::Compact(rand_sp(&mut t)) } else { APDecl::Ext(PARAM_EXT_TYPES[t.choose(6)]) };
                 let arg = [ArgDecl::Ext, ArgDecl::CompactSuffix, ArgDecl::CompactBare][t.choose(3)];
@@ -2618,14 +3409,14 @@ impl Prop for C13 {
         "C13"
     }
     fn rule(&self) -> &'static str {
-        "One case = one name-configuration unit: a base name (first letter chosen against the DEFtype statements at the top of the program) with one declaration kind in the global scope {absent, implicit use, DIM x<q> (compact, one or two qualifiers), DIM x AS t (INTEGER/LONG/SINGLE/DOUBLE/STRING/STRING*3/user TYPE), both also as DIM SHARED, CONST} and one in a SUB or FUNCTION scope {absent, implicit use, DIM compact, DIM extended, parameter x<q>, parameter x AS t, CONST}, or the base name is a FUNCTION name. The program assigns a distinct small integer (or 3-character string) through every spelling (bare and % & ! # $, mixed letter cases) that the reference resolver accepts and prints through every spelling: in the global scope before and after the call, in the subprogram before and after its own assignments. Up to 12 units with different base names share one program (attribution by source row / output marker). Expected values come from the independent resolver written from the statement + README; a must-reject unit carries one statement (foreign suffix on an extended variable, or extended + qualified compact DIM) that has to be rejected at its row. Enumerated part (identical in both tiers): see exhaustive_parts; random part: 0-3 DEFtype statements with up to 3 letters/ranges each in random letter case, 1-6 units with random declarations, spellings, orders, letter cases. ADDED (array parameters): a unit whose base name is an ARRAY PARAMETER of a SUB/FUNCTION, declared compact (`A%()`, `A$()`, bare `A()` typed by DEFtype) or extended (`A() AS INTEGER|LONG|SINGLE|DOUBLE|STRING|user TYPE`); a module-level array of the same element type (DIMmed compact with suffix, compact bare, or extended; same or another base name) gets two distinct element values and is passed; inside the subprogram every spelling that the resolver makes denote the parameter (extended: bare + matching suffix; compact: the suffix, and the bare name iff the letter's default type is the element type) reads the caller's values, three elements are written through alternating spellings and read back through every spelling, and the caller prints all three elements after return; next to a compact parameter a scalar of the same base name and ANOTHER type must be a fresh local; next to an extended parameter a foreign suffix (scalar or element, assignment or PRINT) must be rejected at its row. ADDED (constants): a unit with a global CONST and a CONST of the same bare name inside one SUB/FUNCTION (declared bare or suffixed, INTEGER/LONG/SINGLE/DOUBLE/STRING literal, so same and different suffix / value kind, always different values); the name is referenced bare and with the suffix of the innermost definition's type - directly, inside a later `CONST M = name * 2` / `name + \"!\"`, and as `DIM B AS STRING * name` (LEN printed) - at module level before the calls, after the calls and (one third) after the subprogram definitions, in the redefining subprogram after its CONST, and in two non-redefining subprograms (one textually before, one after the redefining one; one SUB, one FUNCTION): the innermost definition must win everywhere in the redefining subprogram, the global one everywhere else. A unit is non-trivial when it is one of these two kinds, or uses >= 2 spellings of its base name, or a non-SINGLE DEFtype covers its letter, or a subprogram scope has SHARED / a parameter / a CONST in play; distinct by unit configuration + DEFtype text."
+        "One case = one name-configuration unit: a base name (first letter chosen against the DEFtype statements at the top of the program) with one declaration kind in the global scope {absent, implicit use, DIM x<q> (compact, one or two qualifiers), DIM x AS t (INTEGER/LONG/SINGLE/DOUBLE/STRING/STRING*3/user TYPE), both also as DIM SHARED, CONST} and one in a SUB or FUNCTION scope {absent, implicit use, DIM compact, DIM extended, parameter x<q>, parameter x AS t, CONST}, or the base name is a FUNCTION name. The program assigns a distinct small integer (or 3-character string) through every spelling (bare and % & ! # $, mixed letter cases) that the reference resolver accepts and prints through every spelling: in the global scope before and after the call, in the subprogram before and after its own assignments. Up to 12 units with different base names share one program (attribution by source row / output marker). Expected values come from the independent resolver written from the statement + README; a must-reject unit carries one statement (foreign suffix on an extended variable, or extended + qualified compact DIM) that has to be rejected at its row. Enumerated part (identical in both tiers): see exhaustive_parts; random part: 0-3 DEFtype statements with up to 3 letters/ranges each in random letter case, 1-6 units with random declarations, spellings, orders, letter cases. ADDED (array parameters): a unit whose base name is an ARRAY PARAMETER of a SUB/FUNCTION, declared compact (`A%()`, `A$()`, bare `A()` typed by DEFtype) or extended (`A() AS INTEGER|LONG|SINGLE|DOUBLE|STRING|user TYPE`); a module-level array of the same element type (DIMmed compact with suffix, compact bare, or extended; same or another base name) gets two distinct element values and is passed; inside the subprogram every spelling that the resolver makes denote the parameter (extended: bare + matching suffix; compact: the suffix, and the bare name iff the letter's default type is the element type) reads the caller's values, three elements are written through alternating spellings and read back through every spelling, and the caller prints all three elements after return; next to a compact parameter a scalar of the same base name and ANOTHER type must be a fresh local; next to an extended parameter a foreign suffix (scalar or element, assignment or PRINT) must be rejected at its row. ADDED (constants): a unit with a global CONST and a CONST of the same bare name inside one SUB/FUNCTION (declared bare or suffixed, INTEGER/LONG/SINGLE/DOUBLE/STRING literal, so same and different suffix / value kind, always different values); the name is referenced bare and with the suffix of the innermost definition's type - directly, inside a later `CONST M = name * 2` / `name + \"!\"`, and as `DIM B AS STRING * name` (LEN printed) - at module level before the calls, after the calls and (one third) after the subprogram definitions, in the redefining subprogram after its CONST, and in two non-redefining subprograms (one textually before, one after the redefining one; one SUB, one FUNCTION): the innermost definition must win everywhere in the redefining subprogram, the global one everywhere else. ADDED (parameterless function names): a unit whose base name is a FUNCTION WITHOUT parameters (declared bare or with any suffix; result assigned once, bare or suffixed); the name is referenced bare / with the suffix of its type at module level, inside a SUB and inside ANOTHER FUNCTION (with / without a parameter of its own) in r-value positions (PRINT item, assignment right side, operand, IF condition, SELECT CASE, FOR limit) and in argument positions (user FUNCTION argument plain / parenthesized / inside an expression, user SUB argument with and without CALL, built-in function argument, array subscript): every reference is a call, so it shows the function's (non-zero / non-empty) value; a must-reject unit carries one statement outside the function's body that uses the name as a variable (assignment, FOR counter, READ, INPUT) or declares it again (DIM, DIM AS, CONST). ADDED (DIM SHARED clashes): a unit with `DIM SHARED x...` at module level (compact bare / suffixed or extended, scalar or array, with one accepted use) and a SUB/FUNCTION that declares the same base name as an extended name (local `DIM x AS t` or parameter `x AS t`, scalar or array) or - against an extended shared variable - as a qualified compact name (`DIM x$`, parameter `x$`): the declaration must be rejected at its row. A unit is non-trivial when it is one of these four kinds, or uses >= 2 spellings of its base name, or a non-SINGLE DEFtype covers its letter, or a subprogram scope has SHARED / a parameter / a CONST in play; distinct by unit configuration + DEFtype text."
     }
     fn assumptions(&self) -> Vec<&'static str> {
         vec![
             "a variable that was never assigned prints 0 (numeric) or the empty string; an unassigned STRING * n is never printed",
             "DEFtype statements stand at the top of the program, before any use and before every SUB/FUNCTION; when two ranges of different types cover one letter the case is discarded",
             "arguments are literals, so that parameter passing by reference cannot couple the scopes; a parameter of the user-defined type receives a scratch variable that is not observed",
-            "discarded as undetermined by the statement/README: a CONST referenced through another spelling than its declaration or coexisting with variables/declarations of the same base name; a local DIM / parameter with the base name of a DIM SHARED variable or of a global CONST (a local CONST over a global CONST is decided: see constants); DIM after an implicit use; the same variable DIMmed twice; function names called through a foreign suffix or coexisting with variables of the same base name",
+            "discarded as undetermined by the statement/README: a CONST referenced through another spelling than its declaration or coexisting with variables/declarations of the same base name; a local compact DIM / parameter / CONST with the base name of a DIM SHARED compact variable, a local bare DIM / parameter or CONST with the base name of a DIM SHARED extended variable, any local declaration with the base name of a global CONST (a local CONST over a global CONST is decided: see constants; extended declarations over DIM SHARED variables are decided: see DIM SHARED clashes); DIM after an implicit use; the same variable DIMmed twice; function names called through a foreign suffix or coexisting with variables of the same base name",
             "a CONST is visible as its value in its own scope and (global CONST) in every subprogram; its value is printed like a literal of that type",
             "a FUNCTION's result type follows the bare/qualified rule (suffix, else the default type of its first letter); it can be called and its result assigned through the bare name or the matching suffix",
             "an extended variable and a qualified compact DIM of the same base name in one scope are rejected in either order (README: 'when in scope, you can't have any other qualified name of the same bare name')",
@@ -2633,6 +3424,8 @@ impl Prop for C13 {
             "array parameters: a parameter declared `A() AS type` is an extended name like `A AS type` (README lists parameters among the extended names; the statement's DIM A AS type rule), a parameter `A%()` / `A()` is a compact name (bare = default type of the first letter); an array argument is passed by reference, so elements assigned in the subprogram are the caller's elements after return; spellings of the parameter's base name that denote no declared array (implicit arrays) and a scalar of the parameter's own name and type are not referenced (undetermined)",
             "constants: inside a subprogram the innermost CONST of a bare name wins for every later use in that subprogram, including constant expressions (right side of a later CONST, STRING * n length); other subprograms and the module level see the global CONST (the property's priority list: local constant before global constant; names_outer.rs rule 4). A CONST is referenced bare or with the suffix of its type; the type of a bare CONST is the type of its literal (QBasic CONST documentation; rules 2/3 in names_outer.rs) - these references carry their own evidence classes (suffix-of-bare-decl). LEN of a STRING * n variable is n; 7.5 * 2, 7.25# * 2 and the integer products are exact",
             "module-level statements written after the subprogram definitions belong to the module level",
+            "parameterless function names: a FUNCTION procedure without parameters is invoked by its name alone in any expression (QBasic FUNCTION documentation; the property's resolution order puts the function name before the implicit variable), in every scope - only inside its OWN body is the name the result variable (never read there by the generator: QBasic makes that a recursive call). The call's value is the value assigned to the result (constant, so evaluation order does not matter). Outside its own body the name is not a variable: assigning to it, using it as FOR counter / READ / INPUT target, or declaring it again with DIM / DIM AS / CONST is an error (QBasic: Duplicate definition); any error positioned at that row meets the prediction. References through a foreign suffix stay undetermined. STR$(n) of a small positive integer value is the digits after trimming; LEN of the 3-character string value is 3",
+            "DIM SHARED clashes: a DIM SHARED variable is in scope in every SUB/FUNCTION (statement), and an extended name cannot coexist with any other (qualified) name of the same bare name that is in scope (README, Extended names: 'when in scope, you can't have any other qualified name of the same bare name'), whichever of the two is the extended one; parameters declared AS type are extended names (README lists them). So inside a subprogram `DIM x AS t` / parameter `x AS t` is rejected when any DIM SHARED x... exists, and `DIM x<q>` / parameter `x<q>` is rejected when DIM SHARED x AS t exists; scalar or array makes no difference (the rule is about the bare name). The subprogram is not called (the checker lints every subprogram)",
         ]
     }
     fn run(&self, sh: &mut Shard) {
